@@ -6,7 +6,7 @@
 From Coq Require Import List ZArith Bool Arith Lia.
 Import ListNotations.
 Require Import C03.Model C03.Proofs C03.ProofsSlice C03.ProofsSize C03.ProofsClass C03.ProofsCat C03.ProofsDiag C03.ProofsFront C03.ProofsFront2 C03.ProofsGather
-  C03.ProofsAbsorbed C03.ProofsLone C03.ProofsPinned C03.ProofsInterp.
+  C03.ProofsAbsorbed C03.ProofsLone C03.ProofsPinned C03.ProofsInterp C03.ProofsContract C03.ProofsClassContract C03.ProofsGetitem.
 Open Scope Z_scope.
 
 (* ===================================================================================== *)
@@ -367,6 +367,177 @@ Theorem C03_interp_root_diagonal : forall (R : Z -> Z -> Z) rk li lv ri rv,
   interp_root_diag R rk li lv ri rv = interp_get_indices (root_get_indices R rk) li lv ri rv.
 Proof. exact interp_root_diag_correct. Qed.
 
+
+(* ===================================================================================== *)
+(** THE CONTRACT between __getitem__ and an operator class, and per-class proofs of it
+    (Model.v part 7: getitem_front = the front end abstracted over the class's two methods; getitem_model is its instance
+     for DenseLinearOperator.  tab sh ent = the dense matrix with entries ent.) *)
+
+(* a class whose _getitem meets the contract for the dense matrix t (on the inputs the front end produces for basic
+   indices: ints / slices in the batch positions, slices in the matrix positions) returns t[index] for every basic index *)
+Theorem C03_e2e_basic : forall debug t g gi idx index r,
+  (2 <= length (tshape t))%nat -> Forall (fun n => (0 < n)%nat) (tshape t) -> getitem_contract t g ->
+  spec_expand (length (tshape t)) idx = Some index -> forallb basic index = true ->
+  torch_index t idx = Some r ->
+  getitem_front Fixed debug (tshape t) g gi idx = Some r.
+Proof. exact e2e_basic. Qed.
+
+(* a class whose _get_indices is the gather of the dense matrix returns t[index] on the absorbed path *)
+Theorem C03_e2e_absorbed : forall debug t g gi idx index r,
+  (2 <= length (tshape t))%nat -> Forall (fun n => (0 < n)%nat) (tshape t) -> get_indices_contract t gi ->
+  spec_expand (length (tshape t)) idx = Some index -> absorbed_idx (length (tshape t)) index = true ->
+  torch_index t idx = Some r ->
+  getitem_front Fixed debug (tshape t) g gi idx = Some r.
+Proof. exact e2e_absorbed. Qed.
+
+(* an entry formula evaluated element-wise over the broadcasting index tensors is the gather of the tabulated matrix
+   whenever the formula is the entry on all in-range coordinates; hence ... *)
+Theorem C03_get_indices_elementwise : forall (f ent : list nat -> Z) ns ts,
+  Forall (fun n => (0 < n)%nat) ns -> (forall x, In x (enum ns) -> f x = ent x) ->
+  gi_elem f ns ts = gather (tab ns ent) ts.
+Proof. exact gi_elem_is_gather. Qed.
+
+(* ... every class whose (nested) entry formula REALIZES the entries of its denotation is indexed correctly on the absorbed path *)
+Theorem C03_e2e_absorbed_realizes : forall debug f ent ns g idx index r,
+  (2 <= length ns)%nat -> Forall (fun n => (0 < n)%nat) ns -> realizes f ent ns ->
+  spec_expand (length ns) idx = Some index -> absorbed_idx (length ns) index = true ->
+  torch_index (tab ns ent) idx = Some r ->
+  getitem_front Fixed debug ns g (gi_elem f ns) idx = Some r.
+Proof. exact e2e_absorbed_realizes. Qed.
+
+(** _get_indices, class by class: the formula the class computes (nested over the children's formulas) realizes the entry
+    function of the matrix it denotes (nested over the children's entry functions), all sizes and batch shapes *)
+
+Theorem C03_gi_toeplitz : forall column n bs, realizes (toeplitz_f column n) (toeplitz_ent column) (bs ++ [n; n])%list.
+Proof. exact toeplitz_realizes. Qed.
+
+Theorem C03_gi_kron : forall bs fs es, Forall2 (kagree bs) fs es -> kpos fs ->
+  realizes (kron_f fs) (kron_ent es) (bs ++ [prod (map (fun f => fst (fst f)) fs); prod (map (fun f => snd (fst f)) fs)])%list.
+Proof. exact kron_realizes. Qed.
+
+Theorem C03_gi_blockdiag : forall base_f base_e m n k bs, (0 < m)%nat -> (0 < n)%nat -> realizes base_f base_e (bs ++ [k; m; n])%list ->
+  realizes (blockdiag_f base_f m n) (blockdiag_ent base_e m n) (bs ++ [k * m; k * n])%nat%list.
+Proof. exact blockdiag_realizes. Qed.
+
+Theorem C03_gi_blockinterleaved : forall base_f base_e k m n bs, (0 < k)%nat -> realizes base_f base_e (bs ++ [k; m; n])%list ->
+  realizes (blockinterleaved_f base_f k) (blockinterleaved_ent base_e k) (bs ++ [m * k; n * k])%nat%list.
+Proof. exact blockinterleaved_realizes. Qed.
+
+Theorem C03_gi_batchrepeat : forall base_f base_e bbs reps lead m n, length reps = length bbs -> Forall (fun s => (0 < s)%nat) bbs ->
+  realizes base_f base_e (bbs ++ [m; n])%list ->
+  realizes (batchrepeat_f base_f bbs) (batchrepeat_ent base_e bbs)
+           ((lead ++ map (fun '(r, s) => (r * s)%nat) (combine reps bbs)) ++ [m; n])%list.
+Proof. exact batchrepeat_realizes. Qed.
+
+Theorem C03_gi_diag : forall d ns, realizes (diag_f d) (diag_ent d) ns.
+Proof. exact diag_realizes. Qed.
+
+Theorem C03_gi_masked : forall base_f base_e rmask cmask bs, realizes base_f base_e (bs ++ [length rmask; length cmask])%list ->
+  realizes (masked_f base_f rmask cmask) (masked_f base_e rmask cmask)
+           (bs ++ [length (mask_positions rmask 0); length (mask_positions cmask 0)])%list.
+Proof. exact masked_realizes. Qed.
+
+Theorem C03_gi_interp : forall base_f base_e li lv ri rv bs m n M N, realizes base_f base_e (bs ++ [m; n])%list ->
+  (forall y, In y (enum (bs ++ [M])) -> Forall (fun a => 0 <= a < Z.of_nat m) (li y)) ->
+  (forall y, In y (enum (bs ++ [N])) -> Forall (fun a => 0 <= a < Z.of_nat n) (ri y)) ->
+  realizes (interp_f base_f li lv ri rv) (interp_ent base_e li lv ri rv m n) (bs ++ [M; N])%list.
+Proof. exact interp_realizes. Qed.
+
+Theorem C03_gi_cat : forall pieces_f pieces_e sizes dim ns, length pieces_f = length sizes -> (dim < length ns)%nat ->
+  nth dim ns 0%nat = fold_right Nat.add 0%nat sizes ->
+  (forall k, (k < length sizes)%nat ->
+     realizes (nth k pieces_f (fun _ => 0)) (nth k pieces_e (fun _ => 0)) (set_nth ns dim (nth k sizes 0%nat))) ->
+  length pieces_e = length sizes ->
+  realizes (cat_f pieces_f sizes dim) (cat_ent pieces_e sizes dim) ns.
+Proof. exact cat_realizes. Qed.
+
+Theorem C03_gi_matmul : forall Lf Le Rf Re bs m k n, realizes Lf Le (bs ++ [m; k])%list -> realizes Rf Re (bs ++ [k; n])%list ->
+  realizes (matmul_f Lf Rf k) (matmul_f Le Re k) (bs ++ [m; n])%list.
+Proof. exact matmul_realizes. Qed.
+
+Theorem C03_gi_root : forall Rf Re bs m k, realizes Rf Re (bs ++ [m; k])%list -> realizes (root_f Rf k) (root_f Re k) (bs ++ [m; m])%list.
+Proof. exact root_realizes. Qed.
+
+Theorem C03_gi_sumbatch : forall base_f base_e bs nb m n, realizes base_f base_e (bs ++ [nb; m; n])%list ->
+  realizes (sumbatch_f base_f nb) (sumbatch_f base_e nb) (bs ++ [m; n])%list.
+Proof. exact sumbatch_realizes. Qed.
+
+Theorem C03_gi_sum : forall fs es ns, Forall2 (fun f e => realizes f e ns) fs es -> realizes (sum_f fs) (sum_f es) ns.
+Proof. exact sum_realizes. Qed.
+
+Theorem C03_gi_mul : forall f1 e1 f2 e2 ns, realizes f1 e1 ns -> realizes f2 e2 ns -> realizes (mul_f f1 f2) (mul_f e1 e2) ns.
+Proof. exact mul_realizes. Qed.
+
+Theorem C03_gi_constmul : forall c f e ns, realizes f e ns -> realizes (constmul_f c f) (constmul_f c e) ns.
+Proof. exact constmul_realizes. Qed.
+
+(** _getitem for basic indices, class by class: the class meets the contract for its dense matrix whenever its children do *)
+
+Theorem C03_getitem_dense : forall t, getitem_contract t (dense_getitem t).
+Proof. exact dense_getitem_contract. Qed.
+
+Theorem C03_getitem_zero : forall shape, getitem_contract (tab shape zero_f) (zero_getitem shape).
+Proof. exact zero_getitem_contract. Qed.
+
+Theorem C03_getitem_sum : forall ta tb ga gb D, ok_tensor ta = true -> ok_tensor tb = true ->
+  getitem_contract ta ga -> getitem_contract tb gb -> tzip Z.add ta tb = Some D ->
+  getitem_contract D (sum_getitem ga gb).
+Proof. exact sum_getitem_contract. Qed.
+
+Theorem C03_getitem_matmul : forall L R gl gr D bs m k n, ok_tensor L = true -> ok_tensor R = true ->
+  tshape L = (bs ++ [m; k])%list -> tshape R = (bs ++ [k; n])%list ->
+  getitem_contract L gl -> getitem_contract R gr -> tmatmul L R = Some D ->
+  getitem_contract D (matmul_getitem gl gr).
+Proof. exact matmul_getitem_contract. Qed.
+
+Theorem C03_getitem_sumbatch : forall T g D bs nb m n, ok_tensor T = true -> tshape T = (bs ++ [nb; m; n])%list ->
+  getitem_contract T g -> tsumbatch T = Some D -> getitem_contract D (sumbatch_getitem g).
+Proof. exact sumbatch_getitem_contract. Qed.
+
+Theorem C03_getitem_constmul : forall c T g D bs m n, ok_tensor c = true -> ok_tensor T = true ->
+  tshape c = bs -> tshape T = (bs ++ [m; n])%list -> getitem_contract T g -> tconstmul c T = Some D ->
+  getitem_contract D (constmul_getitem c g).
+Proof. exact constmul_getitem_contract. Qed.
+
+(* composed: a Matmul of two operators meeting the contracts, basic indices and the absorbed path *)
+Theorem C03_e2e_matmul : forall debug L R gl gr fl fr D bs m k n idx index r,
+  ok_tensor L = true -> ok_tensor R = true -> tshape L = (bs ++ [m; k])%list -> tshape R = (bs ++ [k; n])%list ->
+  Forall (fun x => (0 < x)%nat) (bs ++ [m; n]) ->
+  getitem_contract L gl -> getitem_contract R gr ->
+  realizes fl (tget L) (bs ++ [m; k])%list -> realizes fr (tget R) (bs ++ [k; n])%list ->
+  tmatmul L R = Some D ->
+  spec_expand (length (bs ++ [m; n])) idx = Some index ->
+  forallb basic index = true \/ absorbed_idx (length (bs ++ [m; n])) index = true ->
+  torch_index D idx = Some r ->
+  getitem_front Fixed debug (bs ++ [m; n]) (matmul_getitem gl gr) (gi_elem (matmul_f fl fr k) (bs ++ [m; n])) idx = Some r.
+Proof. exact e2e_matmul. Qed.
+
+(** _diagonal, class by class: the formula at batch ++ [i] is the entry of the denoted matrix at batch ++ [i; i] *)
+
+Theorem C03_diagonal_toeplitz : forall column b i, toeplitz_dg column (b ++ [i]) = toeplitz_ent column (b ++ [i; i]).
+Proof. exact toeplitz_diagonal_contract. Qed.
+Theorem C03_diagonal_diag : forall d b i, d (b ++ [i])%list = diag_ent d (b ++ [i; i]).
+Proof. exact diag_diagonal_contract. Qed.
+Theorem C03_diagonal_blockdiag_batch : forall base m b i,
+  blockdiag_dg (fun y => base (db y ++ [di y; di y])%list) m (b ++ [i]) = blockdiag_ent base m m (b ++ [i; i]).
+Proof. exact blockdiag_diagonal_contract. Qed.
+Theorem C03_diagonal_blockinterleaved_batch : forall base k b i,
+  blockinterleaved_dg (fun y => base (db y ++ [di y; di y])%list) k (b ++ [i]) = blockinterleaved_ent base k (b ++ [i; i]).
+Proof. exact blockinterleaved_diagonal_contract. Qed.
+Theorem C03_diagonal_root : forall R k b i, root_dg R k (b ++ [i]) = root_f R k (b ++ [i; i]).
+Proof. exact root_diagonal_contract. Qed.
+Theorem C03_diagonal_matmul_dense : forall L R k b i, matmul_dense_dg L R k (b ++ [i]) = matmul_f L R k (b ++ [i; i]).
+Proof. exact matmul_dense_diagonal_contract. Qed.
+Theorem C03_diagonal_matmul_diag_left : forall ld R n b i, (i < n)%nat ->
+  matmul_diag_dg ld (fun y => R (db y ++ [di y; di y])%list) (b ++ [i]) = matmul_f (diag_ent ld) R n (b ++ [i; i]).
+Proof. exact matmul_diag_left_diagonal_contract. Qed.
+Theorem C03_diagonal_matmul_diag_right : forall L rd n b i, (i < n)%nat ->
+  matmul_diag_dg (fun y => L (db y ++ [di y; di y])%list) rd (b ++ [i]) = matmul_f L (diag_ent rd) n (b ++ [i; i]).
+Proof. exact matmul_diag_right_diagonal_contract. Qed.
+Theorem C03_diagonal_sumbatch : forall base nb b i,
+  sumbatch_dg (fun y => base (db y ++ [di y; di y])%list) nb (b ++ [i]) = sumbatch_f base nb (b ++ [i; i]).
+Proof. exact sumbatch_diagonal_contract. Qed.
+
 (* ===================================================================================== *)
 (** non-vacuity: the hypotheses are satisfiable on concrete non-trivial inputs *)
 
@@ -436,3 +607,23 @@ Example C03_ex_interp : (* two interpolation points per side, a duplicate index 
   interp_get_indices (fun x y => 10 * x + y) [1;1] [2;3] [0;2] [1;-1] = (2 + 3) * (10 - 12) /\
   interp_w [1;1] [2;3] 1 = 5.
 Proof. split; vm_compute; reflexivity. Qed.
+
+Example C03_ex_e2e_matmul : (* (L @ R)[1, -1:] and (L @ R)[[1,0],[0,1]] for dense 2x3 / 3x2 factors through the class-level methods *)
+  let L := mkT [2;3]%nat [1;2;3;4;5;6] in let R := mkT [3;2]%nat [1;0;0;1;2;2] in
+  let g := matmul_getitem (dense_getitem L) (dense_getitem R) in
+  let gi := gi_elem (matmul_f (tget L) (tget R) 3) [2;2]%nat in
+  tmatmul L R = Some (mkT [2;2]%nat [7;8;16;17]) /\
+  getitem_front Fixed true [2;2]%nat g gi [RItem (IInt 1); RItem (ISlice (Some (-1)) None None)] = Some (mkT [1]%nat [17]) /\
+  getitem_front Fixed true [2;2]%nat g gi [RList [1;0]; RList [0;1]] = Some (mkT [2]%nat [16;8]).
+Proof. vm_compute. repeat split; reflexivity. Qed.
+
+Example C03_ex_realizes_nested : (* the formulas nest: Kron(Toeplitz, BlockDiag(dense)) realizes its entry function *)
+  forall (column base : list nat -> Z),
+  realizes (kron_f [(3%nat, 3%nat, toeplitz_f column 3); (4%nat, 6%nat, blockdiag_f base 2 3)])
+           (kron_ent [(3%nat, 3%nat, toeplitz_ent column); (4%nat, 6%nat, blockdiag_ent base 2 3)]) ([] ++ [12; 18])%nat%list.
+Proof.
+  intros column base. apply (kron_realizes []).
+  - constructor; [split; [reflexivity|apply (toeplitz_realizes column 3 [])]|].
+    constructor; [split; [reflexivity|apply (blockdiag_realizes base base 2 3 2 []); [lia|lia|apply realizes_refl]]|constructor].
+  - repeat constructor.
+Qed.
